@@ -814,7 +814,8 @@ theorem receiveDecodedCore_recv (K : Crypto) (m : Bytes) : Stable Recv (receiveD
       split
       · refine Stable.post_bind (receiveDataMessage_downE K _ _).down_recv fun x => ?_
         life_walk []
-      · refine Stable.post_bind (processAKE_up K _ _).up_recv fun x => ?_
+      · refine Stable.pre_bind Stable.getc fun c1 => ?_
+        refine Stable.post_bind (processAKE_up K _ _).up_recv fun x => ?_
         life_walk [msgEventErr_life]
 
 theorem receiveDecoded_recv (K : Crypto) (m : Bytes) : Stable Recv (receiveDecoded K m) := by
